@@ -33,12 +33,12 @@ type obs struct {
 }
 
 type step struct {
-	Op   string `json:"op"` // add | del | batch | backup | reopen
+	Op   string `json:"op"` // add | del | batch | backup | reopen | snap | restore
 	K    []int  `json:"k,omitempty"`
 	V    []int  `json:"v,omitempty"`
 	Adds []pair `json:"adds,omitempty"`
 	Dels []pair `json:"dels,omitempty"`
-	Cont bool   `json:"cont,omitempty"` // backup: go on with the restored copy (else with the original)
+	Cont bool   `json:"cont,omitempty"` // backup, restore: go on with the restored copy (else with the original)
 	Err  int    `json:"err"`            // 0 nil, 1 ErrNXKey, 2 ErrNXVal, 3 ErrUnexpectedEOF, 4 EOF, 5 other
 	Obs  []obs  `json:"obs"`            // one entry per key of Keys, same order
 }
@@ -109,6 +109,7 @@ type runner struct {
 	db    *rdb.RDB
 	gen   int
 	useUp bool
+	bkdir string // the one backup directory the "snap" steps of the current case add backups to
 }
 
 func (r *runner) open() error {
@@ -171,6 +172,60 @@ func (r *runner) exec(st *step, keys [][]byte) error {
 		if err := r.open(); err != nil {
 			return fmt.Errorf("reopen: %w", err)
 		}
+	case "snap":
+		// a periodically run backup tool: one more backup into the SAME backup directory
+		// (rdb.Backup never purges older ones); the database directory is closed meanwhile
+		if err := r.db.Close(); err != nil {
+			return fmt.Errorf("close before backup: %w", err)
+		}
+		r.db = nil
+		if r.bkdir == "" {
+			r.gen++
+			r.bkdir = filepath.Join(r.root, fmt.Sprintf("bkc%d", r.gen))
+			if err := os.MkdirAll(r.bkdir, 0o755); err != nil {
+				return err
+			}
+		}
+		st.Err = errClass(rdb.Backup(r.dir, r.bkdir))
+		if err := r.open(); err != nil {
+			return fmt.Errorf("open after backup: %w", err)
+		}
+	case "restore":
+		// rdb.Restore = the latest backup of that directory, into a fresh directory; the copy is
+		// read completely; with Cont the history goes on with it, else with the original
+		r.gen++
+		nd := filepath.Join(r.root, fmt.Sprintf("db%d", r.gen))
+		bk := r.bkdir
+		if bk == "" { // no backup was taken in this case: an empty backup directory
+			bk = filepath.Join(r.root, fmt.Sprintf("bkempty%d", r.gen))
+			if err := os.MkdirAll(bk, 0o755); err != nil {
+				return err
+			}
+			defer os.RemoveAll(bk)
+		}
+		err := rdb.Restore(nd, bk)
+		st.Err = errClass(err)
+		if err != nil || r.bkdir == "" {
+			if err == nil {
+				st.Err = 0 // would be a finding: restored something from an empty backup directory
+			}
+			os.RemoveAll(nd)
+			break // nothing restored: the current store is read
+		}
+		copyDB, err := rdb.NewRDB(nd)
+		if err != nil {
+			return fmt.Errorf("open restored copy: %w", err)
+		}
+		st.Obs = observe(copyDB, keys)
+		if st.Cont {
+			r.db.Close()
+			os.RemoveAll(r.dir)
+			r.db, r.dir, r.useUp = copyDB, nd, false
+		} else {
+			copyDB.Close()
+			os.RemoveAll(nd)
+		}
+		return nil
 	case "backup":
 		// dnsrocks-backuprdb works on a database directory that no writer has open
 		if err := r.db.Close(); err != nil {
@@ -235,6 +290,7 @@ var smallVals = [][]byte{
 }
 
 type gen struct {
+	hasSnap bool   // a "snap" step was issued in this case
 	pending []step // steps of a scripted sequence still to be issued (drain a key, then a boundary)
 	r     *hlib.Rng
 	keys  [][]byte
@@ -300,7 +356,43 @@ func (g *gen) boundary() step {
 	return step{Op: "reopen"}
 }
 
+// periodic schedules what a periodically run backup tool sees: a backup, changes, another
+// backup into the same directory, perhaps more changes, then (now or later) a restore.
+func (g *gen) periodic() {
+	r := g.r
+	change := func() {
+		n := 1 + r.Intn(2)
+		for i := 0; i < n; i++ {
+			g.pending = append(g.pending, step{Op: "add", K: hlib.Ints(g.key()), V: hlib.Ints(g.val())})
+		}
+		if k, v, ok := g.existing(); ok && r.Chance(1, 2) {
+			g.pending = append(g.pending, step{Op: "del", K: hlib.Ints(k), V: hlib.Ints(v)})
+		}
+	}
+	nb := 2 + r.Intn(2)
+	for i := 0; i < nb; i++ {
+		g.pending = append(g.pending, step{Op: "snap"})
+		if i < nb-1 || r.Chance(1, 2) {
+			change()
+		}
+	}
+	if r.Chance(1, 4) {
+		g.pending = append(g.pending, step{Op: "reopen"})
+	}
+	if r.Chance(3, 4) {
+		g.pending = append(g.pending, step{Op: "restore", Cont: r.Chance(1, 2)})
+	}
+}
+
 func (g *gen) genStep(class string) step {
+	st := g.genStep1(class)
+	if st.Op == "snap" {
+		g.hasSnap = true
+	}
+	return st
+}
+
+func (g *gen) genStep1(class string) step {
 	r := g.r
 	bigBatch := class == "bigbatch"
 	if len(g.pending) > 0 {
@@ -308,18 +400,28 @@ func (g *gen) genStep(class string) step {
 		g.pending = g.pending[1:]
 		return st
 	}
-	w := []int{12, 10, 10, 1, 2, 1}
+	w := []int{12, 10, 10, 1, 1, 1, 1, 1, 1}
 	if class == "sessions" {
-		w = []int{10, 6, 4, 1, 4, 5}
+		w = []int{10, 6, 4, 1, 3, 4, 1, 2, 2}
 	}
 	switch r.Pick(w) {
 	case 4:
 		return step{Op: "reopen"}
 	case 5:
 		if g.drain() {
-			return g.genStep(class)
+			return g.genStep1(class)
 		}
 		return step{Op: "add", K: hlib.Ints(g.key()), V: hlib.Ints(g.val())}
+	case 6:
+		return step{Op: "snap"}
+	case 7:
+		if g.hasSnap || r.Chance(1, 8) { // rarely: restore with no backup at all must fail
+			return step{Op: "restore", Cont: r.Chance(1, 2)}
+		}
+		return step{Op: "snap"}
+	case 8:
+		g.periodic()
+		return g.genStep1(class)
 	}
 	switch r.Pick([]int{w[0], w[1], w[2], w[3]}) {
 	case 0:
@@ -407,7 +509,7 @@ func newGen(r *hlib.Rng, tier string) (*gen, string, int) {
 			}
 			g.vals = append(g.vals, r.Bytes(n, nil))
 		}
-		if tier == "thorough" && r.Chance(1, 4) {
+		if tier == "thorough" && r.Chance(1, 8) {
 			g.vals = append(g.vals, r.Bytes(65536+r.Intn(3000), nil)) // third length byte
 		}
 		nsteps = 2 + r.Intn(6)
@@ -486,6 +588,10 @@ func genCase(a *hlib.Args, n int, r *hlib.Rng) (c15case, error) {
 			}
 		}
 		rn = shared
+		if rn.bkdir != "" { // every case has a backup directory of its own
+			os.RemoveAll(rn.bkdir)
+			rn.bkdir = ""
+		}
 		for i, k := range g.keys {
 			g.keys[i] = append([]byte{byte(n >> 8), byte(n)}, k...)
 		}
